@@ -7,6 +7,7 @@ git -C /repo apply "$PWD/seeded/$SID/patch.diff" || exit 2
 for P in "$@"; do
   OUT=$(./check "$P" --tier ${TIER:-quick} 2>&1); RC=$?
   echo "$SID $P rc=$RC $(echo "$OUT" | grep -m1 '^VIOLATION')"
-  echo "$OUT" | grep -A3 '"what"' | head -0
+  R=$(echo "$OUT" | grep -m1 '^VIOLATION' | grep -v no-failing-input-found | sed -n 's/.*replay=\([^ ]*\).*/\1/p')
+  [ -n "$R" ] && [ -f "$R" ] && cp "$R" "seeded/$SID/replay-$P-${TIER:-quick}.json"
 done
 git -C /repo checkout -- . ; git -C /repo status --porcelain | grep -q . && echo "WARNING /repo still dirty"
